@@ -222,7 +222,7 @@ func runSweep20(a *args) {
 					if !p && !closeTo(gi, tb.impact[imp-1]) {
 						col.violate(Violation{Property: prop, Kind: "Impact differs from the guide equation", Version: "2.0", Input: o.Vector(), Expected: tb.impact[imp-1].FloatString(12), Observed: fmtF(gi)})
 					}
-				case "C11":
+				case "C11", "C09":
 					checkTenth(col, prop, v, o, "base", gb, p, msg, 0)
 				case "C12":
 					if !p {
@@ -249,7 +249,7 @@ func runSweep20(a *args) {
 								if p || !member(gt, wt) {
 									vio("TemporalScore differs from the guide equations", "temporal", wt, gt, msg)
 								}
-							case "C11":
+							case "C11", "C09":
 								checkTenth(col, prop, v, o, "temporal", gt, p, msg, 0)
 							case "C12":
 								if !p { // a metric at ND has no successor in the severity order and is skipped by neighbours2 itself
@@ -289,7 +289,7 @@ func runSweep20(a *args) {
 													if p || !member(gv, we) {
 														vio("EnvironmentalScore differs from the guide equations", "environmental", we, gv, msg)
 													}
-												case "C11":
+												case "C11", "C09":
 													// the literal environmental equation reaches -0.2 (pinned by C05): only finiteness / one decimal here
 													if _, ok := isTenth(gv, -2, 100); p || !ok {
 														col.violate(Violation{Property: prop, Kind: "score is not a finite one-decimal number", Version: "2.0", Input: o.Vector(),
